@@ -91,7 +91,21 @@ inductive Op
   | persist (vb : Vb) (seq : Nat)
   | getOffsets
   | metrics (vb : Vb)
+  | scrape
 deriving Repr, Inhabited
+
+/-- one vBucket's metric families at a scrape (`metric/collector.go`) -/
+structure ScrapeRow where
+  vb : Vb
+  cur : Nat
+  ss : Nat
+  se : Nat
+  lag : Nat
+  nmut : Nat
+  ndel : Nat
+  nexp : Nat
+  persist : Nat
+deriving DecidableEq, Repr, Inhabited
 
 inductive Obsv
   | ok
@@ -111,6 +125,8 @@ inductive Obsv
   | stale
   | pos (offs : List (Vb × Offset)) (dirty : List Vb) (any : Bool)
   | counters (m d e : Nat)
+  | scrape (rows : List ScrapeRow) (totalLag : Nat)
+  | scrapeClosed
 deriving Repr, Inhabited
 
 /-! ### stream.go -/
@@ -299,6 +315,21 @@ def evStep (s : St) (vb : Vb) (e : SrvEv) : St × List Obsv :=
       | .dropClosed => (s1, [.drop "closed"])
       | .failstop => (s1, [.failstop "snapshot"])
 
+/-- `lag` as `collector.go` computes it on `uint64`: `if seqNo > offset.SeqNo { lag = seqNo - offset.SeqNo }` -/
+def lagOf (high seq : Nat) : Nat := if high > seq then high - seq else 0
+
+/-- `metricCollector.Collect`: per-vBucket gauges and counters, and the total lag -/
+def scrapeRows (s : St) : List ScrapeRow :=
+  s.offsets.map fun (vb, o) =>
+    let ob := (s.observers.get? vb).getD {}
+    { vb, cur := o.seq, ss := o.ss, se := o.se, lag := lagOf ((s.high.get? vb).getD 0) o.seq,
+      nmut := ob.nMut, ndel := ob.nDel, nexp := ob.nExp, persist := ob.persist }
+
+def scrape (s : St) : Obsv :=
+  if s.obsNil then .scrapeClosed else
+  let rows := scrapeRows s
+  .scrape rows (rows.foldl (fun acc r => acc + r.lag) 0)
+
 def step (s : St) : Op → St × List Obsv
   | .setStore vb d => if s.isOpen then (s, [.bad "open"]) else ({ s with store := s.store.set vb d }, [.ok])
   | .setHigh vb n => ({ s with high := s.high.set vb n }, [.ok])
@@ -328,6 +359,7 @@ def step (s : St) : Op → St × List Obsv
     match s.observers.get? vb with
     | none => (s, [.bad "no observer"])
     | some o => (s, [.counters o.nMut o.nDel o.nExp])
+  | .scrape => (s, [scrape s])
 
 def run (s : St) (ops : List Op) : St := ops.foldl (fun s op => (step s op).1) s
 
